@@ -14,6 +14,11 @@ import sys
 import time
 import traceback
 
+import warnings
+
+warnings.filterwarnings("ignore", category=DeprecationWarning)
+os.environ.setdefault("PYTHONWARNINGS", "ignore::DeprecationWarning")
+
 from harness import findings, tlc
 
 ROOT = os.path.dirname(os.path.dirname(os.path.abspath(__file__)))
